@@ -254,14 +254,18 @@ theorem srcEvents_trace (w : Tape.World) (src : Str) (st st' : Inj) (b : Bool) (
       · rename_i h3; rw [if_pos h3]; cases h; exact .note _ _ _ _ hc (.nil _)
       · rename_i h3
         rw [if_neg h3]
-        cases hi : injWriteFile (splitSource src).1 (dispatch (splitSource src).1 (splitSource src).2.1 (splitSource src).2.2.1).2.2
-          (dispatch (splitSource src).1 (splitSource src).2.1 (splitSource src).2.2.1).1
-          (dispatch (splitSource src).1 (splitSource src).2.1 (splitSource src).2.2.1).2.1 data 4 st with
-        | error e => rw [hi] at h; cases h
-        | ok s2 =>
-          rw [hi] at h
-          cases h
-          exact fileEvents_trace _ _ _ _ _ 4 st _ hi
+        split at h
+        · rename_i ha; rw [if_pos ha]; cases h; exact .note _ _ _ _ hc (.nil _)
+        · rename_i ha
+          rw [if_neg ha]
+          cases hi : injWriteFile (splitSource src).1 (dispatch (splitSource src).1 (splitSource src).2.1 (splitSource src).2.2.1).2.2
+            (dispatch (splitSource src).1 (splitSource src).2.1 (splitSource src).2.2.1).1
+            (dispatch (splitSource src).1 (splitSource src).2.1 (splitSource src).2.2.1).2.1 data 4 st with
+          | error e => rw [hi] at h; cases h
+          | ok s2 =>
+            rw [hi] at h
+            cases h
+            exact fileEvents_trace _ _ _ _ _ 4 st _ hi
 
 theorem loopEvents_trace (w : Tape.World) : ∀ (srcs : List Str) (st st' : Inj), st.cur < 4 → injLoop w srcs st = .ok st' →
     Trace st.cur (loopEvents w srcs st.img st.cur) st'.cur := by
@@ -320,12 +324,14 @@ theorem loopEvents_trace (w : Tape.World) : ∀ (srcs : List Str) (st st' : Inj)
                 · cases hf; exact hc
                 · split at hf
                   · cases hf; exact hc
-                  · revert hf
-                    cases injWriteFile (splitSource src).1 (dispatch (splitSource src).1 (splitSource src).2.1 (splitSource src).2.2.1).2.2
-                      (dispatch (splitSource src).1 (splitSource src).2.1 (splitSource src).2.2.1).1
-                      (dispatch (splitSource src).1 (splitSource src).2.1 (splitSource src).2.2.1).2.1 data 4 st with
-                    | error e => intro hf; cases hf
-                    | ok s2 => intro hf; cases hf
+                  · split at hf
+                    · cases hf; exact hc
+                    · revert hf
+                      cases injWriteFile (splitSource src).1 (dispatch (splitSource src).1 (splitSource src).2.1 (splitSource src).2.2.1).2.2
+                        (dispatch (splitSource src).1 (splitSource src).2.1 (splitSource src).2.2.1).1
+                        (dispatch (splitSource src).1 (splitSource src).2.1 (splitSource src).2.2.1).2.1 data 4 st with
+                      | error e => intro hf; cases hf
+                      | ok s2 => intro hf; cases hf
           exact ht.append (ih s1 st' hc1 h)
 
 theorem tailEvents_trace {img : Image} (himg : ImgOk img) : ∀ (fuel c : Nat) (u : Usage), c < 4 → 3 ≤ c + fuel →
